@@ -1252,6 +1252,9 @@ func (r *runner) bloop(id string, l *loopDef, bname string, pts []*point) string
 		for _, p := range pts {
 			q := *p
 			q.name = bname
+			if l.name != "" {
+				q.name = l.name // the node's measurement property (ignored on batch edges before the fix: commit of findings/C02.txt)
+			}
 			qs = append(qs, &q)
 		}
 		r.acceptedFrom(l.db, l.rp, qs, nil, 1)
